@@ -527,7 +527,8 @@ class BaseTable:
             index = util.safe_np_int_cast(index, np.int32)
 
         ret = self.__class__()
-        ret.metadata_schema = self.metadata_schema
+        if hasattr(self, "metadata_schema"):  # ProvenanceTable has no metadata
+            ret.metadata_schema = self.metadata_schema
         ret.ll_table.extend(self.ll_table, row_indexes=index)
 
         return ret
